@@ -55,5 +55,8 @@ int clock_gettime(clockid_t id, struct timespec *tp)
 	return 0;
 }
 
-#define FILE_PRE (g_file_len < (1UL << 40) && g_pos < (1UL << 41))
+/* no wrap-around of the ghost stream length: a tiered bound so that a caller's
+ * bound implies its callees' after at most one flush of <= 2 MiB in between */
+#define FILE_PRE_N(n) (g_file_len < (1UL << (n)) && g_pos < (1UL << 62))
+#define FILE_PRE FILE_PRE_N(62)
 #endif
